@@ -436,6 +436,28 @@ def fracgcd(p, q):
         return p
     return p, q
 
+def _operand(s, power=False):
+    """Parenthesize the expression string s unless it can stand as an operand
+    of * and / as it is (a name, a number, a function call or a power of
+    these); with power=True also a power is parenthesized, so that the
+    result can be raised to a power."""
+    depth = 0
+    prev = ''
+    for ch in s.strip():
+        if ch in '([':
+            depth += 1
+        elif ch in ')]':
+            depth -= 1
+        elif depth == 0 and ch in '+-/% ':
+            return '(%s)' % s
+        elif depth == 0 and ch == '*':
+            if power:
+                return '(%s)' % s
+            if prev != '*' and s.strip().count('**') * 2 != s.strip().count('*'):
+                return '(%s)' % s
+        prev = ch
+    return s
+
 def pslqstring(r, constants):
     q = r[0]
     r = r[1:]
@@ -472,10 +494,10 @@ def prodstring(r, constants):
             cs = constants[i][1]
             if isinstance(z, int_types):
                 if abs(z) == 1: t = cs
-                else:           t = '%s**%s' % (cs, abs(z))
+                else:           t = '%s**%s' % (_operand(cs, True), abs(z))
                 ([num,den][z<0]).append(t)
             else:
-                t = '%s**(%s/%s)' % (cs, abs(z[0]), z[1])
+                t = '%s**(%s/%s)' % (_operand(cs, True), abs(z[0]), z[1])
                 ([num,den][z[0]<0]).append(t)
     num = '*'.join(num)
     den = '*'.join(den)
@@ -774,7 +796,7 @@ def identify(ctx, x, constants=[], tol=None, maxcoeff=1000, full=False,
             constants = [(ctx.mpf(v), name) for (name, v) in sorted(constants.items())]
         else:
             namespace = dict((name, getattr(ctx,name)) for name in dir(ctx))
-            constants = [(eval(p, namespace), p) for p in constants]
+            constants = [(eval(p, namespace), _operand(p)) for p in constants]
     else:
         constants = []
 
